@@ -14,9 +14,27 @@ import os
 import sys
 
 
+def local_names(fn):
+    """every name bound anywhere inside the function (parameters, stores, nested definitions): the named values of the confirmed
+    tree, which the single-use propagation (P6c) of bsa/normalize.py keeps"""
+    out = set()
+    for n in ast.walk(fn):
+        if isinstance(n, ast.Name) and isinstance(n.ctx, (ast.Store, ast.Del)):
+            out.add(n.id)
+        elif isinstance(n, ast.arg):
+            out.add(n.arg)
+        elif isinstance(n, (ast.FunctionDef, ast.AsyncFunctionDef, ast.ClassDef)) and n is not fn:
+            out.add(n.name)
+        elif isinstance(n, ast.ExceptHandler) and n.name:
+            out.add(n.name)
+        elif isinstance(n, ast.alias):
+            out.add((n.asname or n.name).split(".")[0])
+    return sorted(out)
+
+
 def main():
     root = sys.argv[1] if len(sys.argv) > 1 else "/repo"
-    inv = {"functions": [], "module_names": {}, "class_names": {}, "nested": []}
+    inv = {"functions": [], "module_names": {}, "class_names": {}, "nested": [], "locals": {}}
     pkg = os.path.join(root, "bromelia")
     for dp, dn, fn in os.walk(pkg):
         dn[:] = [d for d in dn if d != "__pycache__"]
@@ -33,6 +51,7 @@ def main():
             def top(s):
                 if isinstance(s, (ast.FunctionDef, ast.AsyncFunctionDef)):
                     inv["functions"].append(f"{mod}.{s.name}")
+                    inv["locals"][f"{mod}.{s.name}"] = local_names(s)
                     names.add(s.name)
                 elif isinstance(s, ast.ClassDef):
                     names.add(s.name)
@@ -40,6 +59,8 @@ def main():
                     for b in s.body:
                         if isinstance(b, (ast.FunctionDef, ast.AsyncFunctionDef)):
                             inv["functions"].append(f"{mod}.{s.name}.{b.name}")
+                            inv["locals"][f"{mod}.{s.name}.{b.name}"] = sorted(set(inv["locals"].get(f"{mod}.{s.name}.{b.name}", []))
+                                                                              | set(local_names(b)))
                             cn.add(b.name)
                         elif isinstance(b, ast.Assign):
                             for t in b.targets:
